@@ -483,6 +483,10 @@ where
     let mut visited: FastHashSet<CellKey> = FastHashSet::default();
 
     for step in 0..MAX_STEPS {
+        #[cfg(delaunay_verif)]
+        if crate::verif::walk_budget().is_some_and(|budget| step >= budget) {
+            break;
+        }
         stats.walk_steps = step + 1;
 
         if !visited.insert(current_cell) {
